@@ -302,15 +302,17 @@ Proof.
     rewrite !app_length, !chars_length. rewrite firstn_length_le by (fold p; exact Hbn).
     assert (H1 : (length (if plus || neg then [if neg then "-"%char else "+"%char] else []) <= 1)%nat)
       by (destruct (plus || neg); cbn [length]; lia).
-    assert (H2 : (length (if Nat.ltb 0 (p - b) || (ex - (before p ex - 1) =? 0)
+    set (ex' := ex - (before p ex - 1)).
+    assert (Hex' : -1000 < ex' < 1000) by (unfold ex'; lia).
+    assert (H2 : (length (if Nat.ltb 0 (p - b) || (ex' =? 0)%Z
                           then "."%char :: chars (firstn (p - b) (skipn b ds)) else []) <= 1 + (p - b))%nat).
-    { destruct (Nat.ltb 0 (p - b) || (ex - (before p ex - 1) =? 0)); cbn [length]; [|lia].
+    { destruct (Nat.ltb 0 (p - b) || (ex' =? 0)%Z); cbn [length]; [|lia].
       rewrite chars_length, firstn_length. lia. }
-    assert (H3 : (length (if negb (ex - (before p ex - 1) =? 0) then exp_text (ex - (before p ex - 1))
+    assert (H3 : (length (if negb (ex' =? 0)%Z then exp_text ex'
                           else if pad then spaces 4 else []) <= 5)%nat).
-    { destruct (ex - (before p ex - 1) =? 0); cbn [negb]; cbv iota.
+    { destruct (ex' =? 0); cbn [negb]; cbv iota.
       - destruct pad; cbn [spaces repeat length]; lia.
-      - apply exp_text_length. lia. }
+      - apply exp_text_length. exact Hex'. }
     unfold buffer_size. lia.
   - unfold sprintf_e_length, buffer_size. fold p.
     destruct neg; destruct (Nat.eqb p 1) eqn:E; destruct (Z.abs ex <? 100)%Z; try apply Nat.eqb_eq in E; lia.
